@@ -115,6 +115,15 @@ partial def step (d : DS) (toks : List String) : DS × String :=
       let s : S := { n := n, me := me }
       ({ s := s, inited := true }, "ok")
     | _, _ => (d, "bad-op")
+  | ["sync", h, r, b, sgs] =>
+    let sg? := (sgs.splitOn ",").mapM (·.toNat?)
+    match h.toNat?, r.toNat?, b.toNat?, sg? with
+    | some h, some r, some b, some sgl =>
+      if !d.inited || !d.s.started || !knownBlk d.s b || sgl.any (· ≥ d.s.n) || sgl.isEmpty then (d, "bad-op") else
+      let from_ := d.s.eff.length
+      let s := settle (syncBlock d.s h r b sgl) 8
+      ({ d with s := s }, showState s from_)
+    | _, _, _, _ => (d, "bad-op")
   | ["crash", k] =>
     match k.toNat? with
     | some k =>
